@@ -198,7 +198,7 @@ theorem code_query_rows_in_order (E : Mimic.Py.Env S) (coldef : Nat → Nat → 
     (data : Mimic.Py.Bytes) (q : Mimic.Extracted.ParsersCode.ComQuery S) (rs : ResultSet S)
     (hp : Mimic.Extracted.ParsersCode.parse_com_query E c.capabilities c.client_charset data = some q) (ha : app q.sql = some rs)
     (hne : rs.columns.isEmpty = false) (hb : rs.rows.boom = false) :
-    ∃ (c' : Connection S) (pre : List Ev) (l w2 fl : Nat), handle_query E coldef app c data = .ok c' ∧
+    ∃ (c' : Connection S) (pre : List (Ev S)) (l w2 fl : Nat), handle_query E coldef app c data = .ok c' ∧
       c'.out = c.out ++ pre ++ rs.rows.rows.map (fun p => Ev.write p false)
                  ++ [Ev.write (ok_or_eof c rs.rows.rows.length l w2 fl) false, Ev.drain] := by
   have h := handle_query_spec E coldef app c data
@@ -211,7 +211,7 @@ theorem code_execute_rows_in_order (coldef : Nat → Nat → Mimic.Py.Bytes) (pa
     (app : S → Option (ResultSet S)) (c : Connection S) (data : Mimic.Py.Bytes) (x : ComStmtExecute S) (rs : ResultSet S)
     (hp : parse c data = some x) (ha : app x.sql = some rs) (hne : rs.columns.isEmpty = false) (hu : x.use_cursor = false)
     (hb : rs.rows.boom = false) :
-    ∃ (c' : Connection S) (pre : List Ev) (a l w2 fl : Nat), handle_stmt_execute coldef parse app c data = .ok c' ∧
+    ∃ (c' : Connection S) (pre : List (Ev S)) (a l w2 fl : Nat), handle_stmt_execute coldef parse app c data = .ok c' ∧
       c'.out = c.out ++ pre ++ rs.rows.rows.map (fun p => Ev.write p true) ++ [Ev.write (ok_or_eof c a l w2 fl) true] := by
   have h := handle_stmt_execute_spec coldef parse app c data
   simp only [hp, ha, hne, hu, Bool.false_eq_true, if_false, hb] at h
